@@ -7,6 +7,8 @@ VERIF = os.path.dirname(os.path.dirname(os.path.abspath(__file__)))
 SPEC = os.path.join(VERIF, 'spec')
 HARNESS = os.path.join(VERIF, 'harness')
 WORK = os.path.join(VERIF, 'work')
+# the tree under test; only the seeded-change sweeps (bin/sweep-seeded in a sandbox copy) point this anywhere else
+REPO = os.environ.get('VERIF_REPO', '/repo')
 TLA_CP = '/opt/veriftools/tla/tla2tools.jar:/opt/veriftools/tla/CommunityModules-deps.jar'
 NCPU = os.cpu_count() or 8
 
@@ -51,7 +53,7 @@ def build_rrss_bin():
         return _built['rrss']
     tdir = os.path.join(WORK, 'rrss-target')
     p = subprocess.run(['cargo', 'build', '--offline', '--quiet', '--bin', 'rrss', '--target-dir', tdir],
-                       cwd='/repo', env=env_offline(), stdout=subprocess.PIPE, stderr=subprocess.STDOUT, text=True)
+                       cwd=REPO, env=env_offline(), stdout=subprocess.PIPE, stderr=subprocess.STDOUT, text=True)
     if p.returncode != 0:
         log(p.stdout[-4000:])
         raise ToolError('rrss binary build failed')
